@@ -26,7 +26,7 @@ ASSUMPTIONS = ['CPython 3.12 tokenizer and eval as the reference semantics',
                'displays are near-misses) are in neither class unless listed']
 WITNESSES = ['concat_with_empty_piece', 'negative_number', 'one_tuple', 'trailing_comma', 'comment_in_brackets',
              'newline_in_brackets', 'nested_depth2', 'bytes_value', 'nearmiss_rejected', 'triple_quoted',
-             'minus_before_ref_rejected', 'trailing_junk_rejected']
+             'minus_before_ref_rejected', 'trailing_junk_rejected', 'mixed_str_bytes_rejected']
 
 SENT = object()
 warnings.simplefilter('ignore')
@@ -393,6 +393,16 @@ def gen_cases(tier):
   # parenthesised single value is the value itself
   for a in ['1', "'a'", '-2.5', '[1]', "'a' 'b'", '(1)', '((1,))', '( \n 1 \n )']:
     yield ('good', '(' + a + ')', [])
+  # mixed str / bytes concatenations (every pair and every triple with both kinds, empties included) are rejected
+  pcs = Q_PIECES if tier == 'thorough' else Q_PIECES[:10] + ["rb'\\x'"]
+  strs = [p for p in pcs if not is_bytes_piece(p)]
+  byts = [p for p in pcs if is_bytes_piece(p)]
+  mixed = [a + ' ' + b for a in strs for b in byts] + [b + ' ' + a for a in strs for b in byts]
+  mixed += [' '.join(t) for t in itertools.product(pcs[:6] + byts[:2], repeat=3)
+            if len({is_bytes_piece(x) for x in t}) == 2]
+  for text in mixed:
+    for pos in ('top', 'list', 'dict_value'):
+      yield ('bad', place(text, pos), ['mixed_str_bytes_rejected'])
   for nm in NEAR:
     for pos in POSITIONS:
       text = place(nm, pos)
